@@ -488,7 +488,7 @@ func main() {
 		return
 	}
 	rep := hx.NewReport("C06", o.Seed, o.Tier)
-	rep.Rule = "scripts of record operations: every script of length <= 2 (quick) / <= 3 (thorough) over a 14-op alphabet, then random scripts of 1..12 ops (after a 3-op preamble that fixes the input splitter) over: record arrival, $0 assignment, field reads/writes with indexes from {0,+-1,+-2,NF+d,-NF+d,0.5,1e6,1e6+1,2^31,2^63,-2^63,1e30,NaN}, getline $i, sub/gsub/append/++/+= on a field, NF reads, NF assignments (integers, fractions, strings, negative, 1e6, 1e6+1, 2^63), NF++/NF+=d, FS from {space, single bytes, multi-byte char, empty, fixed and random regex ASTs, non-compiling}, OFS, RS (newline/empty), INPUTMODE/OUTPUTMODE; texts with blank runs, tabs, NBSP, VT, CR, newlines, invalid UTF-8, empty. 60% of random scripts avoid the input classes of the known findings so that everything else is checked to the end. distinct = distinct model request line; non-trivial = at least one mutating operation"
+	rep.Rule = "scripts of record operations: every script of length <= 2 (quick) / <= 3 (thorough) over a 14-op alphabet, then random scripts of 1..12 ops (after a 3-op preamble that fixes the input splitter) over: record arrival, $0 assignment, field reads/writes with indexes from {0,+-1,+-2,NF+d,-NF+d,0.5,1e6,1e6+1,2^31,2^63,-2^63,1e30,NaN}, getline $i, sub/gsub/append/++/+= on a field, NF reads, NF assignments (integers, fractions, strings, negative, 1e6, 1e6+1, 2^63), NF++/NF+=d, FS from {space, single bytes, multi-byte char, empty, fixed and random regex ASTs, non-compiling}, OFS, RS (newline/empty), INPUTMODE/OUTPUTMODE; texts with blank runs, tabs, NBSP, VT, CR, newlines, invalid UTF-8, empty. 60% of random scripts avoid the input classes of the known findings (non-integral NF values, exotic white space, NaN index) so that everything else is checked to the end. distinct = distinct model request line; non-trivial = at least one mutating operation"
 	r := hx.NewRand(o.Seed)
 	scripts := genScripts(o, r)
 	nFixed := len(fixedScripts())
